@@ -443,6 +443,11 @@ def corner_case(draw):
     if draw(st.integers(0, 19)) == 0:
         return draw(bigcomb_case())
     T, vals, desc = draw(corner_array())
+    # a third of the operands are slices array[a:b] of the built layout: Index offsets and NumpyArray byte offsets that are not 0
+    pre = draw(st.sampled_from([None, None, None, None, [1, None], [0, -1], [1, -1]]))
+    if pre is not None:
+        vals = vals[pre[0]:pre[1]]
+        return {"part": "corner", "desc": desc, "pre": pre, "spec": draw(corner_op(T, vals, desc["class"]))}
     return {"part": "corner", "desc": desc, "spec": draw(corner_op(T, vals, desc["class"]))}
 
 
@@ -555,10 +560,12 @@ def same_tv(a, b):
 
 def run_corner(case):
     desc, spec = case["desc"], case["spec"]
+    pre = case.get("pre")
     T, vals = M.decode(desc)
     from checks.modelcheck import region, oplabel
-    label = _oplabel(spec) + "|" + region(T, vals, spec)
-    rclass = request_class(T, vals, spec)
+    svals = vals if pre is None else vals[pre[0]:pre[1]]
+    label = _oplabel(spec) + "|" + region(T, svals, spec)
+    rclass = request_class(T, svals, spec)
     if rclass == "between":
         return {"discarded": "request neither small nor certainly unallocatable (would only be slow)"}
     if rclass in ("oversized", "overflow") and FLAVOUR != "plain":
@@ -571,6 +578,12 @@ def run_corner(case):
     before = snapshot_value(lay)
     if before is None or not same_tv(before, (T, vals)):
         raise HarnessError("a freshly built layout does not read back as the description's value")
+    if pre is not None:
+        lay = lay[pre[0]:pre[1]]
+        before = snapshot_value(lay)
+        if before is None or not same_tv(before, (T, vals[pre[0]:pre[1]])):
+            # what a slice evaluates to is property C01's concern (e.g. the recorded zero_field_records finding), not this one's
+            return {"discarded": "the slice used as operand does not read back as that slice of the value (C01's concern)"}
     kind, res = ops.outcome(lambda: apply(lay, spec))
     for b, s in zip(buffers, snaps):
         if b.tobytes() != s:
@@ -595,7 +608,9 @@ def run_corner(case):
     for b, s in zip(buffers, snaps):
         if b.tobytes() != s:
             raise Violation("purity:" + label, "an input buffer was modified while reading the result of %s" % spec["op"], clause="C12-purity")
-    cs = corners(desc, T, vals, spec, rclass)
+    cs = corners(desc, T, svals, spec, rclass)
+    if pre is not None:
+        tags.append("operand:slice_of_built_layout")
     return {"tags": tags + ["corner:" + c for c in cs], "nontrivial": bool(cs), "sample_class": "corner:" + spec["op"]}
 
 
@@ -1313,11 +1328,22 @@ def rpad_count_overflow(case):
 KNOWN["rpad_count_overflow"] = lambda case, vio: vio.get("bucket", "").startswith("crash:") and _safe(rpad_count_overflow, case)
 
 
+def list_nesting(d):
+    """largest number of list-type levels (ListArray / ListOffsetArray / RegularArray nodes, strings included, and the inner
+    dimensions of an n-d NumpyArray) along a path of the description"""
+    cls = d["class"]
+    below = max([list_nesting(c) for c in ([d["content"]] if "content" in d else []) + list(d.get("contents", []))] or [0])
+    if cls.startswith(("ListArray", "ListOffsetArray")) or cls == "RegularArray":
+        return 1 + below
+    if cls == "NumpyArray":
+        return len(d["shape"]) - 1
+    return below
+
+
 def is_unique_nested(case, vio):
     """is_unique below two or more list levels hands list positions to the content as if they were content positions"""
-    kind, op, parts = K._parts(vio)
-    depth = [int(x[1:]) for x in parts if x[:1] == "d" and x[1:].isdigit()]
-    return case.get("part") == "corner" and kind == "crash" and op == "is_unique" and case["spec"]["op"] == "is_unique" and bool(depth) and depth[0] >= 3
+    return (case.get("part") == "corner" and vio.get("bucket", "").startswith("crash:") and case["spec"]["op"] == "is_unique"
+            and list_nesting(case["desc"]) >= 2)
 
 
 KNOWN["is_unique_nested_lists"] = is_unique_nested
@@ -1363,7 +1389,8 @@ def case_label(case):
     if part == "corner":
         from checks.modelcheck import region
         T, vals = M.decode(case["desc"])
-        return _oplabel(case["spec"]) + "|" + region(T, vals, case["spec"])
+        pre = case.get("pre")
+        return _oplabel(case["spec"]) + "|" + region(T, vals if pre is None else vals[pre[0]:pre[1]], case["spec"])
     if part == "invalid":
         return invalid_label(case)
     if part == "python":
